@@ -2,7 +2,7 @@
 import json, socket
 from gen import common, tconnect, sysattr, dnsresp
 
-LEAN_MODULE = ["XcmModel.Props.C13", "XcmModel.Props.Timer"]
+LEAN_MODULE = ["XcmModel.Props.C13", "XcmModel.Props.Timer", "XcmModel.Props.Dns"]
 THEOREMS = [
     "XcmModel.Tconnect.connectNext_good", "XcmModel.Tconnect.trackGetFd_good", "XcmModel.C13.reachable_good",
     "XcmModel.C13.C13_sequential_first_accepting", "XcmModel.C13.C13_errno_of_last_failure",
@@ -10,6 +10,7 @@ THEOREMS = [
     "XcmModel.C13.C13_waiting_is_watched", "XcmModel.C13.C13_resolve_sync_terminates",
     "XcmModel.C13tc.C13_tc_fails_only_when_all_tracks_failed", "XcmModel.C13tc.C13_happy_one_track_per_family",
     "XcmModel.TimerProps.timer_inv_run", "XcmModel.TimerProps.C04_expired_timer_wakes", "XcmModel.TimerProps.C13_has_expired_implies_readable", "XcmModel.TimerProps.ids_never_reused", "XcmModel.TimerProps.cancel_exact", "XcmModel.TimerProps.other_calls_keep_timer", "XcmModel.TimerProps.ack_live_no_abort",
+    "XcmModel.DnsProps.dns_inv_run", "XcmModel.DnsProps.process_inv", "XcmModel.DnsProps.result_safe", "XcmModel.DnsProps.C13_dns_completed_sticky", "XcmModel.DnsProps.C13_dns_timeout_enoent", "XcmModel.DnsProps.C13_dns_no_early_timeout", "XcmModel.DnsProps.C13_dns_deadline_value", "XcmModel.DnsProps.C04_dns_deadline_wakes",
 ]
 
 
@@ -240,6 +241,10 @@ def sys_part(ctx, quick):
     from gen import timer as _timer
     _timer.run_part(ctx, 40 if ctx.tier == "quick" else 1500, label="c13timer")
     ctx.rule += " unit_timer: the real timer_mgr.c (scripted clock, recorded timerfd_settime, K-timerfd probed on the real kernel) vs the Lean TimerMgr model on every short two-user history and on random histories with stale ids; monitor: the timerfd is always armed at the earliest live deadline, ids are never reused, a cancel removes exactly the timer named."
+    # the asynchronous resolver front end on top of the timer manager
+    from gen import dnsq as _dnsq
+    _dnsq.run_part(ctx, 60 if ctx.tier == "quick" else 2500, label="c13dnsq")
+    ctx.rule += " unit_dnsq: the real xcm_dns_cares.c over the real timer_mgr.c with c-ares scripted (callback kind, descriptor set, timeout per call), clock scripted, timerfd and xpoll calls recorded, vs the Lean DnsQuery model: state, channel registrations, timer ids, timerfd setting, timer list, result and tries after every call, for every (dns.timeout, synchronous answer, later answer, time relative to the deadline) combination and random histories; monitor: deadline honoured and not anticipated, completion sticky and rung, no registration left, failure ladders leave nothing."
 
 def replay(path):
     r = json.load(open(path))
